@@ -69,7 +69,10 @@ class ExtractNameId(Case):
 
     def ground(self):
         for pairs in self._gen():
-            yield {"pairs": [[k, [f"v{j}_{k}", f"w{j}"]] for j, k in enumerate(pairs)]}
+            if pairs and isinstance(pairs[0], (list, tuple)):
+                yield {"pairs": [[k, list(v)] for k, v in pairs]}  # the generator supplies the values itself
+            else:
+                yield {"pairs": [[k, [f"v{j}_{k}", f"w{j}"]] for j, k in enumerate(pairs)]}
 
     def observe(self, r):
         return list(r)
@@ -92,6 +95,16 @@ def _all_orderings_name_keys():
         yield list(perm)
     for perm in itertools.permutations(list(NAME_RANK)[:4] + list(ID_RANK) + ["Names"]):
         yield list(perm)
+
+
+def _orderings_with_empty_values():
+    """all orderings of 2-3 name / id keys (no rank-0 key: known finding F-C18-1) whose first value may be the EMPTY
+    string: an empty name on the winning key is still the answer (the priority list decides, not truthiness)."""
+    keys = ["standard_name", "name", "gene", "operon", "id"]
+    for n in (2, 3):
+        for combo in itertools.permutations(keys, n):
+            for vals in itertools.product(["", "x"], repeat=n):
+                yield [[k, [v + (str(j) if v else ""), "w"]] for j, (k, v) in enumerate(zip(combo, vals))]
 
 
 class NoteFallback(Case):
@@ -299,6 +312,8 @@ CASES = [FilterAndSort(), MergeQualifiersMethod(), ExtractNameId("extract_featur
                        _all_orderings_small),
          ExtractNameId("extract_feature_name_id[all 7! orderings of the name keys; 7! of mixed name/id/look-alike]",
                        _all_orderings_name_keys),
+         ExtractNameId("extract_feature_name_id[all orderings of 2-3 keys, values possibly empty strings]",
+                       _orderings_with_empty_values),
          NoteFallback(), ExtractTypes(), MergeQualifiers()]
 
 CANARIES = [
